@@ -259,7 +259,10 @@ def diff_outcome(st, o, ar, obs, probes, per_row, hist, probe_rows):
         missing = [json.loads(x) for x in sorted(ws - os_)]
         d.append({"kind": "scan", "unexpected_rows": extra_rows[:6], "missing_rows": missing[:6], "n_unexpected": len(extra_rows), "n_missing": len(missing),
                   "n_expected": len(want), "n_observed": len(obs["scan"]), "duplicates_of_same_row": len(obs["scan"]) != len(os_),
-                  "refused": refused_classes(st, extra_rows), "null_id": any(r[0] == N for r in extra_rows)})
+                  "refused": refused_classes(st, extra_rows), "null_id": any(r[0] == N for r in extra_rows),
+                  # generated ids apart, are these the expected rows? (AUTO_INCREMENT table: blame the missing generation only)
+                  "same_but_for_null_ids": sorted(json.dumps(r[1:]) for r in want) == sorted(json.dumps(r[1:]) for r in obs["scan"])
+                                           and all(r[0] == N or r in want for r in obs["scan"])})
     else:
         if not match_result(ar, o, st, per_row):
             d.append({"kind": "result", "expected": [o["ok"], o["n"], o["nerr"]], "observed": list(ar)})
